@@ -49,7 +49,7 @@ uint8_t *__rust_alloc(size_t size, size_t align)
     // TODO: Ensure we are doing the right thing with align
     // https://github.com/model-checking/kani/issues/1168
     __KANI_assert(__KANI_is_nonzero_power_of_two(align), "Alignment is power of two");
-    __CPROVER_assert(size <= __verif_alloc_cap, "VERIF_ALLOC_CAP single allocation request within the budget");
+    __KANI_assert(size <= __verif_alloc_cap, "VERIF_ALLOC_CAP single allocation request within the budget");
     return malloc(size);
 }
 
@@ -69,7 +69,7 @@ uint8_t *__rust_alloc_zeroed(size_t size, size_t align)
     // TODO: Ensure we are doing the right thing with align
     // https://github.com/model-checking/kani/issues/1168
     __KANI_assert(__KANI_is_nonzero_power_of_two(align), "Alignment is power of two");
-    __CPROVER_assert(size <= __verif_alloc_cap, "VERIF_ALLOC_CAP single allocation request within the budget");
+    __KANI_assert(size <= __verif_alloc_cap, "VERIF_ALLOC_CAP single allocation request within the budget");
     return calloc(1, size);
 }
 
@@ -115,7 +115,7 @@ uint8_t *__rust_realloc(uint8_t *ptr, size_t old_size, size_t align, size_t new_
     // https://github.com/model-checking/kani/issues/1168
     __KANI_assert(__KANI_is_nonzero_power_of_two(align), "Alignment is power of two");
 
-    __CPROVER_assert(new_size <= __verif_alloc_cap, "VERIF_ALLOC_CAP single allocation request within the budget");
+    __KANI_assert(new_size <= __verif_alloc_cap, "VERIF_ALLOC_CAP single allocation request within the budget");
     uint8_t *result = malloc(new_size);
     if (result) {
         size_t bytes_to_copy = new_size < old_size ? new_size : old_size;
